@@ -181,13 +181,30 @@ def _alarm(_sig, _frm):
     raise CaseTimeout()
 
 
+def _disarm():
+    while True:
+        try:
+            signal.setitimer(signal.ITIMER_REAL, 0)
+            return
+        except CaseTimeout:
+            continue
+
+
 def _worker(case):
-    """Run the real implementation on one case, under a watchdog."""
+    """Run the real implementation on one case, under a watchdog.
+
+    The timer REPEATS (every 0.2 s after the limit): code under test may swallow the first
+    CaseTimeout in a bare `except:` (SimpleMemory.add does) and loop on; the exception is raised
+    again until it escapes.
+    """
     signal.signal(signal.SIGALRM, _alarm)
     limit = float(getattr(_MOD, "CASE_TIMEOUT_S", CASE_TIMEOUT_S)) * float(os.environ.get("VERIF_TIMEOUT_SCALE", "1"))
-    signal.setitimer(signal.ITIMER_REAL, limit)
+    signal.setitimer(signal.ITIMER_REAL, limit, 0.2)
     try:
-        r = _MOD.run_impl(case)
+        try:
+            r = _MOD.run_impl(case)
+        finally:
+            _disarm()
         r.setdefault("viol", [])
         r.setdefault("obs", [])
         r.setdefault("nontrivial", True)
@@ -195,13 +212,13 @@ def _worker(case):
         r.setdefault("stats", {})
         return r
     except CaseTimeout:
+        _disarm()
         return {"obs": [], "viol": [f"timeout: implementation call did not return within {limit}s"],
                 "nontrivial": True, "key": "timeout", "stats": {"timeout": 1}, "timeout": True}
     except Exception:
+        _disarm()
         return {"obs": [], "viol": [], "nontrivial": False, "key": "harness-error", "stats": {},
                 "harness_error": traceback.format_exc()[-1500:]}
-    finally:
-        signal.setitimer(signal.ITIMER_REAL, 0)
 
 
 def run_impl_many(mod, cases, procs=None):
